@@ -37,7 +37,7 @@ def handle (ws : List String) : String :=
       else if w == "pvec" || w == "recv" || w == "dvec" then Drv10.handle ws
       else if w == "ecf" then Drv09.handle ws
       else if w == "validate" || w == "map" then Drv14.handle ws
-      else if w == "stretch" || w == "goodmg" || w == "cutvec" || w == "compdom" || w == "oaw" then Drv16.handle ws
+      else if w == "stretch" || w == "goodmg" || w == "cutvec" || w == "compdom" || w == "oaw" || w == "search" then Drv16.handle ws
       else if w == "io" then Drv17.handle ws
       else if w.startsWith "cli" then Drv18.handle ws
       else if w == "imat" || w == "merge" || w == "lslots" then Drv19.handle ws
